@@ -3,7 +3,15 @@ package main
 // SplitMix64: every random choice of every generator derives from one state seeded by VERIF_SEED.
 type Rand struct{ s uint64 }
 
-func NewRand(seed uint64) *Rand { return &Rand{s: seed*0x9E3779B97F4A7C15 + 0x1234567} }
+// NewRand scrambles the seed so that neighbouring seeds give unrelated streams (the state advances by a
+// constant per draw, so an affine seeding would make seed n+1 a shifted copy of seed n).
+func NewRand(seed uint64) *Rand {
+	z := seed + 0x9E3779B97F4A7C15
+	z = (z ^ (z >> 30)) * 0xBF58476D1CE4E5B9
+	z = (z ^ (z >> 27)) * 0x94D049BB133111EB
+	z ^= z >> 31
+	return &Rand{s: z*0x9E3779B97F4A7C15 + 0x1234567}
+}
 
 func (r *Rand) U64() uint64 {
 	r.s += 0x9E3779B97F4A7C15
